@@ -180,6 +180,14 @@ pub fn snapshot_set(s: u32, at: &'static str) {
 pub fn fatal_in_wait(kind: &str) -> ! {
     let what = host::with(|h| h.trap.clone());
     eprintln!("RT-HOST-FATAL kind={kind} trap={what:?}");
+    if std::env::var("RT_HOST_DEBUG").is_ok() {
+        host::with(|h| {
+            let n = h.log.len();
+            for ev in &h.log[..n.min(80)] {
+                eprintln!("{}", crate::trace::fmt_ev(ev));
+            }
+        });
+    }
     crate::runner::emergency_finish()
 }
 
